@@ -12,6 +12,7 @@ import PotasscoVerif.Drv.StringConvert
 import PotasscoVerif.Drv.OptIndex
 import PotasscoVerif.Drv.TheoryData
 import PotasscoVerif.Drv.ValueStore
+import PotasscoVerif.Drv.Options
 open PotasscoVerif.Drv
 
 def dispatch (line : String) : String :=
@@ -31,6 +32,7 @@ def dispatch (line : String) : String :=
   | "td" :: args => runTD args
   | "vs" :: args => runVS args
   | "rc" :: args => runRC args
+  | "op" :: args => runOP args
   | _ => "bad-component"
 
 partial def loop (h : IO.FS.Stream) (out : IO.FS.Stream) : IO Unit := do
